@@ -2,7 +2,7 @@
    every place where the C++ type could wrap as an explicit wrap; lemmas then show the wrap is the
    identity under the guards the code actually has. *)
 From Coq Require Export ZArith List Bool Lia.
-From Coq Require Import ZifyBool.
+From Coq Require Export ZifyBool.
 Export ListNotations.
 Local Open Scope Z_scope.
 
